@@ -17,6 +17,7 @@ DECIDED += "; R10 exhaustive scans: for_pairs, Link::hold / release / take_due /
 DECIDED += "; R11 every container of in-flight messages is covered by hold and by the links iterator; R12 no message type carries a live channel endpoint (recorded finding D10: the SYN-ACK one-shot)"
 DECIDED += '; the slot of a consumed parked datagram is free at once (shared C09-R10)'
 DECIDED += '; R14 Link::release reschedules a message only under the Hold arm of a test of its status; nothing is put in flight past Link::enqueue (shared C03-R2)'
+DECIDED += "; R15 LinkIter::next advances the queue's iterator by plain next; the receive slot is filled only when empty (shared C09-R6)"
 ASSUMPTIONS = ["Link::hold always marks both directions, so 'some direction Healthy' implies 'not held'"]
 
 SENT = "turmoil::top::Link::sent"
